@@ -380,8 +380,8 @@ def move_in_nested(bp, k, r):
             b["dict"].append(e)
     else:  # du: Dict[str, Union[int, Dict[str, int]]]
         entries = v["dict"]
-        nested = [e for e in entries if isinstance(e[1], dict)]
-        plain = [e for e in entries if not isinstance(e[1], dict)]
+        nested = [e for e in entries if isinstance(e[1], dict) and "dict" in e[1]]
+        plain = [e for e in entries if not (isinstance(e[1], dict) and "dict" in e[1])]
         if y % 2 and nested and plain:
             # outer int entry moves into a nested dict
             e = _pick(plain, r, 3)
@@ -404,6 +404,50 @@ def move_in_nested(bp, k, r):
             return None
     _set_arg(node, p, v)
     return bp
+
+
+@changing
+def scalar_into_dict(bp, k, r):
+    """The int parameter `v` becomes an entry {'v': value} of an int-valued dict parameter (or back)"""
+    node = bp["nodes"][k]
+    if node["cls"] != "Node" or not _free(bp, k)("v"):
+        return None
+    have = _args(node)
+    p = _pick([p for p in ("di", "dj", "ddi", "du") if _free(bp, k)(p)], r, 0)
+    if p is None:
+        return None
+    cur = _value_or_default(node, p) or {"dict": []}
+    inside = [e for e in cur["dict"] if e[0] == "v" and not (isinstance(e[1], dict) and "dict" in e[1])]
+    if inside and "v" not in have:
+        cur["dict"].remove(inside[0])
+        _set_arg(node, "v", inside[0][1])
+    elif not inside and "v" in have and not any(e[0] == "v" for e in cur["dict"]):
+        cur["dict"].append(["v", have["v"]])
+        _del_arg(node, "v")
+    else:
+        return None
+    _set_arg(node, p, cur)
+    return bp
+
+
+def prune_towards_v(bp):
+    """Preparation applied to x itself (not an edit): in every Node, drop the arguments that
+    sort between its first int-valued dict parameter and `v`, so that pairs produced by
+    scalar-into-dict are adjacent in the hash stream (the near-collision region)"""
+    bp = copy.deepcopy(bp)
+    for k, node in enumerate(bp["nodes"]):
+        if node["cls"] != "Node":
+            continue
+        have = _args(node)
+        ps = [p for p in ("ddi", "di", "dj", "du") if p in have]
+        if not ps:
+            continue
+        for name in list(have):
+            if ps[0] < name < "v" and name not in ps and _free(bp, k)(name):
+                _del_arg(node, name)
+        for p in ps[1:]:
+            _del_arg(node, p)
+    return bp if patches_valid(bp) else None
 
 
 @changing
@@ -554,6 +598,8 @@ def change_init_tasks(bp, k, r):
         return None
     init = list(node["submit"].get("init", []))
     mode = r[0] % 3
+    if len(set(init)) >= 2 and r[0] % 4 != 0:
+        mode = 2
     if mode == 0 or not init:
         j = _pick(_lw_nodes(bp, k), r, 1)
         if j is None:
@@ -617,12 +663,15 @@ def patches_valid(bp):
 
 def apply(bp, edit, table):
     fn = table[edit["kind"]]
-    bp2 = copy.deepcopy(bp)
-    k = edit["node"] % len(bp2["nodes"])
-    r = fn(bp2, k, edit["r"] or [0])
-    if r is not None and not patches_valid(r):
-        return None
-    return r
+    n = len(bp["nodes"])
+    # the drawn node is where the search for an applicable node starts
+    for offset in range(n):
+        k = (edit["node"] + offset) % n
+        r = fn(copy.deepcopy(bp), k, edit["r"] or [0])
+        if r is not None and patches_valid(r):
+            edit["applied_at"] = k
+            return r
+    return None
 
 
 def edits(table, names=None):
